@@ -187,7 +187,9 @@ async def _apply(loop, cfg, hist, res):
                 if ref.is_valid(ln, p):
                     continue
                 # (r3) never re-register a path one of whose instances took part in a relation (finding G1)
-                if (ln, p) in related or any((ln, a) in related for a in ancestors_or_self(p)):
+                #      -- with "below_related" a NEW path beneath a related (possibly invalidated) directory may still
+                #      be registered: the directory comes back as a fresh instance, the cut relation stays cut
+                if (ln, p) in related or (not cfg.get("below_related") and any((ln, a) in related for a in ancestors_or_self(p))):
                     continue
                 if ln == "L3" and any(ref.inst.get(("L1", "/a" + a[len("/m"):])) for a in ancestors_or_self(p)
                                       if beneath_or_eq(a, "/m")) and not cfg.get("wrap_reuse"):
@@ -261,6 +263,10 @@ def configs_for(tier):
         # relations between copies in disjoint trees
         {"strict": True, "locs": ["L1", "L2"], "paths": ["/a/b", "/a/b/c", "/x/y"], "paths3": [],
          "paths_by_loc": {"L1": ["/x/y", "/x"], "L2": ["/a/b", "/a/b/c", "/a/d"]}, "max_reg": 3 if q else 4,
+         "max_inv": 2, "max_rel": 1, "depth": 5 if q else 7, "src": True},
+        # something new is written beneath a related directory (before or after its invalidation)
+        {"strict": True, "below_related": True, "locs": ["L1", "L2"], "paths": ["/a/b", "/a/b/c", "/x/y"], "paths3": [],
+         "paths_by_loc": {"L1": ["/a/b", "/a/b/c", "/a"], "L2": ["/x/y", "/x"]}, "max_reg": 3 if q else 4,
          "max_inv": 2, "max_rel": 1, "depth": 5 if q else 7, "src": True},
         # wrapped location (mount /m -> /a on L1)
         {"strict": True, "locs": ["L1", "L3"], "paths": ["/a/d", "/x/y"], "paths3": ["/m/b", "/m/b/c"],
